@@ -175,7 +175,9 @@ def oracle(ctx, full):
                      "segments) x loss of the k-th bus frame / silence of either side from the k-th frame, for every k (thorough: all of them; "
                      "quick: 90 sampled): receiver gets exact payload or nothing, J1939-21 aborts carry reason 3 and the PGN, both session tables "
                      "empty no later than the longest timeout (1.25 s; J1939-22: 3 s) after the last frame other than an abort on the bus, follow-up on the same pair "
-                     "delivered; plus give-up time <= 1.25 s and abort presence with a silent peer on either side")
+                     "delivered; a connection-mode originator never stops waiting for a CTS silently (it was acknowledged, aborted by the peer, "
+                     "aborts itself, or — J1939-22 — had sent its end-of-message status); plus give-up time <= 1.25 s and abort presence with a "
+                     "silent peer on either side")
 
 
 def replay(ctx, path):
